@@ -53,9 +53,9 @@ def PL(name, threads, samples, **kw):
 
 _P2 = _Int(64, 0, 2)
 QUICK += [PL("pipe_api_t1_smallq", 1, TWO, preempt=1, qcap=8).name,              # every contig but one is larger than the whole queue
-          PL("pipe_api_t2", 2, TWO, preempt=1).name,
+          PL("pipe_api_t2", 2, TWO, preempt=1, cross=True).name,
           PL("pipe_multi_t2", 2, TWO, preempt=0, driver="multi", qcap=20).name,
-          PL("pipe_single_t2", 2, THREE, preempt=0, driver="single", pack_size=_P2).name,
+          PL("pipe_single_t2", 2, THREE, preempt=0, driver="single", pack_size=_P2, cross=True).name,
           # sync rounds with nothing to flush: finalize right after construction, and sync_and_flush followed directly by finalize
           PL("pipe_empty_t2", 2, [], preempt=1).name, PL("pipe_multi_one_sample_t2", 2, TWO[:1], preempt=0, driver="multi").name]
 THOROUGH += [PL("T_pipe_multi_t2_three", 2, THREE, preempt=0, driver="multi", qcap=20).name, PL("T_pipe_api_t3", 3, TWO, preempt=0, qcap=8).name, PL("T_pipe_multi_t2_p1", 2, TWO, preempt=1, driver="multi", qcap=20).name,
